@@ -18,6 +18,8 @@ void scen_lfht_unique(void);
 void scen_lfht_owner(void);
 void scen_lfht_resize(void);
 void scen_lfht_seq(void);
+void scen_rculist(void);
+void scen_signals(void);
 
 const struct usim_scenario usim_scenarios[] = {
 	{ "gp", "C01", scen_gp },
@@ -35,5 +37,7 @@ const struct usim_scenario usim_scenarios[] = {
 	{ "lfht_owner", "C07", scen_lfht_owner },
 	{ "lfht_resize", "C09", scen_lfht_resize },
 	{ "lfht_seq", "C08", scen_lfht_seq },
+	{ "rculist", "C18", scen_rculist },
+	{ "signals", "C19", scen_signals },
 };
 const int usim_nscenarios = sizeof(usim_scenarios) / sizeof(usim_scenarios[0]);
